@@ -226,7 +226,13 @@ func (g *FuncGen) oblig(kind, label, expr string, p token.Pos, props []string, s
 	if g.c != nil && g.c.NoSafety && isSafetyKind(kind) {
 		return nil
 	}
-	if g.c != nil && g.c.Opts["noframe"] != "" && (kind == "frame" || kind == "loop-frame") {
+	if g.c != nil && g.c.Opts["restriction_only"] != "" && (kind == "requires" || kind == "frame" || strings.HasPrefix(kind, "loop-frame") || isSafetyKind(kind)) {
+		// a restriction-only contract checks just its own cut / ensures / option clauses (e.g. an ordering of calls);
+		// callee preconditions, safety and frame of this function are NOT checked here (recorded as an assumption)
+		g.assumptions["restriction-only contract for "+g.key+": callee preconditions, memory safety and frame of this function are not checked"] = true
+		return nil
+	}
+	if g.c != nil && g.c.Opts["noframe"] != "" && (kind == "frame" || strings.HasPrefix(kind, "loop-frame")) {
 		// restriction-only contracts (e.g. queued_only) do not state a frame
 		return nil
 	}
